@@ -211,7 +211,10 @@ func render(p *prng.R, f field, feats map[string]bool) []byte {
 	return b.Bytes()
 }
 
-func genMessage(p *prng.R, eai bool, big bool) *message {
+// genMessage builds a conformant message. With latin1 set (never together
+// with eai) one unstructured field carries raw ISO-8859-1 bytes: common in the
+// wild, but outside RFC 5322, so such messages are observed and never judged.
+func genMessage(p *prng.R, eai bool, big bool, latin1 bool, foreignSig bool) *message {
 	m := &message{Features: map[string]bool{}}
 	feats := m.Features
 	var fs []field
@@ -296,6 +299,16 @@ func genMessage(p *prng.R, eai bool, big bool) *message {
 		add("Autocrypt", true, append([]string{"addr=user@example.org;", "prefer-encrypt=mutual;", "keydata="}, kd...)...)
 		feats["long-folded-oversigned"] = true
 	}
+	if latin1 {
+		add("X-Legacy", false, "caf\xe9", "na\xefve", "\xa0\xff")
+		feats["nonconformant-8bit-header"] = true
+	}
+	if foreignSig {
+		// a signature of an earlier hop whose key cannot be found any more
+		add("DKIM-Signature", true, "v=1;", "a=rsa-sha256;", "c=relaxed/relaxed;", "d=gone.example;", "s=old;", "h=from:to:subject;",
+			"bh=47DEQpj8HBSa+/TImW+5JCeuQeRkm5NMpJWZG3hSuFU=;", "b="+longToken(p, 86)+"==")
+		feats["foreign-signature-present"] = true
+	}
 	for i, n := 0, p.Intn(4); i < n; i++ {
 		name := prng.Pick(p, []string{"X-Custom", "X-Spam-Flag", "Comments", "Keywords", "X-Custom"})
 		switch p.Intn(4) {
@@ -366,7 +379,12 @@ func genBody(p *prng.R, feats map[string]bool, big bool) []byte {
 		case 4:
 			// empty line
 		case 5:
-			b.WriteString(strings.Repeat("x", maxLine))
+			if p.Bool() {
+				b.WriteString(strings.Repeat("x", maxLine))
+			} else {
+				b.WriteString("." + strings.Repeat("y", maxLine-1)) // 999 octets once dot-stuffed
+				feats["line-998-leading-dot"] = true
+			}
 			feats["line-998"] = true
 		case 6:
 			raw := p.Bytes(p.Range(1, 200))
